@@ -82,6 +82,18 @@ def call_map(c, mesh, extra_layers=False):
     layers = [mesh.layer("density")]
     if c.get("vector_layer", False):
         layers.append(mesh.layer("velocity", mode="vec"))
+    if c.get("second_group", False):
+        # a later layer taken from another Datagroup on the same cells, with a different velocity field and masses
+        # (e.g. a second fluid): the geometry and the orientation of the map are those of the first layer
+        other = osyris.Datagroup()
+        n = len(mesh["dx"])
+        other["position"] = mesh["position"].copy()
+        other["dx"] = mesh["dx"].copy()
+        other["density"] = osyris.Array(np.arange(n, dtype=np.float64) * 3.0 + 500.0, unit="g/cm**3")
+        other["mass"] = osyris.Array(np.linspace(5.0, 1.0, n), unit="g")
+        vv = mesh["velocity"]
+        other["velocity"] = osyris.Vector(vv.z.values[::-1].copy(), -vv.x.values.copy(), vv.y.values[::-1].copy() * 2.0, unit="km/s")
+        layers.append(other.layer("density"))
     buf = io.StringIO()
     import warnings
 
